@@ -42,7 +42,8 @@ PEnum(tag, s) == [k |-> "enum", c |-> 0, v |-> "", s |-> s, suf |-> <<>>, sp |->
 (* ---------------------------------------------------------- environments *)
 (* a sequence of bindings [v, val]; the family has no repeated variables   *)
 Bound(env, x)  == \E i \in 1..Len(env) : env[i].v = x
-Lookup(env, x) == env[CHOOSE i \in 1..Len(env) : env[i].v = x].val
+(* the LAST binding of a name wins: a pattern variable shadows a parameter / outer variable of the same name *)
+Lookup(env, x) == env[CHOOSE i \in 1..Len(env) : env[i].v = x /\ \A j \in (i + 1)..Len(env) : env[j].v # x].val
 Bind(env, x, val) == Append(env, [v |-> x, val |-> val])
 EnvSet(env) == {env[i] : i \in 1..Len(env)}
 
@@ -157,6 +158,13 @@ ArgVal(def, xs) ==
     [] def.nargs = 2 -> TV(<<xs[1].n, xs[2].n>>)
     [] def.nargs = 3 -> TV(<<xs[1].n, xs[2].n, xs[3].n>>)
 
+(* the scope an arm's body is evaluated in: the parameters of a two-argument function (inp, inq), or the outer       *)
+(* variable inq = 7 of the session for one-argument definitions and match expressions, then the arm's own pattern     *)
+(* bindings (EVERY arm starts from the same outer scope: nothing bound by an arm that was tried before is visible)    *)
+ParamEnv(def, val) == IF def.nargs = 2 THEN <<[v |-> "inp", val |-> NV(val.e[1])], [v |-> "inq", val |-> NV(val.e[2])]>>
+                      ELSE <<[v |-> "inq", val |-> NV(7)]>>
+ArmEnv(def, i, val) == ParamEnv(def, val) \o Binds(def.arms[i].pat, val)
+
 RECURSIVE Eval(_, _, _), CallVal(_, _), EvalArgs(_, _, _)
 (* argument values as an explicit tuple (a tuple is evaluated once; a function constructor would be   *)
 (* re-evaluated by TLC at every application, which is exponential along a recursion)                  *)
@@ -176,7 +184,7 @@ Eval(def, e, env) ==
 CallVal(def, xs) ==
   LET val == ArgVal(def, xs)
       i == FirstMatch(def.arms, val) IN
-  IF i = NoArm THEN -1 ELSE Eval(def, def.arms[i].body, Binds(def.arms[i].pat, val))
+  IF i = NoArm THEN -1 ELSE Eval(def, def.arms[i].body, ArmEnv(def, i, val))
 
 (* deviation (iv) of DESIGN.md C16, named: an arm whose body is a call of the function itself with *)
 (* the same number of arguments is a tail call (a loop step), any other recursion is a nested call *)
@@ -196,7 +204,7 @@ CallOutcome(def, xs) ==
   ELSE LET val == ArgVal(def, xs)
            i == FirstMatch(def.arms, val) IN
        IF i = NoArm THEN [kind |-> "noarm", v |-> 0, arm |-> 0]
-       ELSE [kind |-> "val", v |-> Eval(def, def.arms[i].body, Binds(def.arms[i].pat, val)), arm |-> i]
+       ELSE [kind |-> "val", v |-> Eval(def, def.arms[i].body, ArmEnv(def, i, val)), arm |-> i]
 
 (* a single-argument scalar function applied to a matrix: the matrix of the results *)
 Broadcast(def, xs) == [i \in 1..Len(xs) |-> CallOutcome(def, <<NV(xs[i])>>)]
@@ -223,7 +231,7 @@ MatchOutcome(arms, val, variants) ==
   IF ~Exhaustive(arms, val, variants) THEN [kind |-> "reject", v |-> 0, arm |-> 0]
   ELSE LET i == FirstMatch(arms, val) IN
        IF i = NoArm THEN [kind |-> "noarm", v |-> 0, arm |-> 0]
-       ELSE [kind |-> "val", v |-> Eval([nargs |-> 1, arms |-> arms], arms[i].body, Binds(arms[i].pat, val)), arm |-> i]
+       ELSE [kind |-> "val", v |-> Eval([nargs |-> 1, arms |-> arms], arms[i].body, ArmEnv([nargs |-> 1, arms |-> arms], i, val)), arm |-> i]
 
 (* classification used only for failure signatures: some arm carries a guard, its pattern does not *)
 (* match, and the loop-shaped matcher stopped before binding every variable of the guard           *)
